@@ -32,12 +32,12 @@ package command
 //
 // A-PARSE-FS: the specification parser reads its reader only (no file-system effect); what Generate does to the
 // file system is the contract proved for golang.Generate.
-//@   callback c.funcs.Parse ensures fsKind == old(fsKind) && fsData == old(fsData) && (result1 == nil ==> result0 != nil)
+//@   callback c.funcs.Parse ensures fsKind == old(fsKind) && fsData == old(fsData) && (result1 == nil ==> result0 != nil && specWF(result0))
 //@   callback c.funcs.Parse ensures c != nil && c.UI != nil && c.funcs.Generate != nil && c.Out == old(c.Out) && c.Name == old(c.Name) && c.Debug == old(c.Debug)
 //@   callback c.funcs.Parse ensures c.Help == old(c.Help) && c.Version == old(c.Version)
 
 //@   callback c.funcs.Generate provides arg1 != nil
-//@   callback c.funcs.Generate provides arg1.Spec != nil
+//@   callback c.funcs.Generate provides arg1.Spec != nil && specWF(arg1.Spec)
 //@   callback c.funcs.Generate provides arg1.Path == c.Out && arg1.Debug == c.Debug
 //@   callback c.funcs.Generate provides c.Name != "" ==> arg1.Spec.Name == c.Name
 //@   callback c.funcs.Generate ensures forall q string :: {fsKind[q]} {fsData[q]} old(fsKind)[q] != 0 ==> fsKind[q] == old(fsKind)[q] && fsData[q] == old(fsData)[q]
